@@ -5,6 +5,7 @@
 From Coq Require Import String.
 From Coq Require Import List Ascii Bool NArith.
 Require Import Model.Text Model.ParamTypes Gen.Params Model.Lex Model.Cases Model.Pipeline Proofs.LexProofs Proofs.PipelineProofs.
+Require Import Model.Fmt Proofs.TrailProofs.
 Import ListNotations.
 Open Scope char_scope.
 
@@ -59,6 +60,12 @@ Theorem C12_last_semicolon : forall g f last stk ip line rest n,
     = tapp (fst (gap_filt f line g) ++ [semi_tok line'; bclose_tok line']) tail.
 Proof. exact last_semicolon. Qed.
 Print Assumptions C12_last_semicolon.
+
+(* ... and that whitespace token, which the reference parser turns into a trailing blank token of the declaration's value, is
+   not printed: the formatter gives the same text with and without it, under every fill record *)
+Theorem C12_trailing_blank_not_printed : forall fl name parsed imp, prop_fmt fl name (parsed ++ [[" "]]) imp = prop_fmt fl name parsed imp.
+Proof. exact trailing_blank_not_printed. Qed.
+Print Assumptions C12_trailing_blank_not_printed.
 
 (* the explicit fuel of the statements above is immaterial: once a run is complete, more fuel gives the same stream *)
 Theorem C12_fuel_irrelevant : forall n f st line x, t_done (lex_filtered n f st line x) -> forall k, lex_filtered (n + k) f st line x = lex_filtered n f st line x.
